@@ -346,11 +346,86 @@ def _work(job: tuple) -> dict:
     return {"bag": bag, "evals": evals, "nontrivial": nontrivial, "states": len(states), "transitions": transitions, "types": len(sh.mains), "samples": samples, "outcomes": outcomes}
 
 
+def _work_namesakes(job: tuple) -> dict:
+    """Types that share short name and version but live in different namespaces, all resolved in ONE interpreter in every order:
+    class lookup by model must be per full name, arrays of namesakes must survive the builtin round trip."""
+    scratch, thorough = job
+    import importlib
+    import itertools as it
+    import pathlib
+    import sys
+
+    from vf import gen
+
+    bag = Bag()
+    evals = 0
+    root = pathlib.Path(scratch) / "namesakes"
+    files = {
+        "nsk/a/Point.1.0.dsdl": "uint8 x\nuint8 y\n@sealed\n",
+        "nsk/b/Point.1.0.dsdl": "uint16 x\nuint16 y\n@sealed\n",
+        "nsk/b/c/Point.1.0.dsdl": "int32 x\nint32 y\n@extent 128\n",
+        "nsk/a/Point.2.0.dsdl": "uint8 x\nuint8 y\nuint8 z\n@sealed\n",
+        "nsk/Path.1.0.dsdl": "nsk.a.Point.1.0[<=2] coarse\nnsk.b.Point.1.0[<=2] fine\nnsk.b.c.Point.1.0[2] wide\nnsk.a.Point.2.0 last\n@sealed\n",
+        "nsk/Pick.1.0.dsdl": "@union\nnsk.a.Point.1.0 p\nnsk.b.Point.1.0 q\nnsk.b.c.Point.1.0[<=2] r\n@sealed\n",
+    }
+    gen.write_ns(root / "dsdl", files)
+    out = root / "out"
+    gen.generate("py", root / "dsdl" / "nsk", out)
+    types = gen.read_types(root / "dsdl" / "nsk")
+    if str(out) not in sys.path:
+        sys.path.insert(0, str(out))
+    importlib.invalidate_caches()
+    py = __import__("vf.codec.pyrun", fromlist=["PyTarget"]).PyTarget(str(out))
+    ns = py.ns
+    points = [t for t in types if t.short_name == "Point"]
+    # every order of first-time class resolution (the support module is re-imported fresh for every order)
+    for order in it.permutations(range(len(points))):
+        for m in [k for k in list(sys.modules) if k == "nunavut_support" or k == "nsk" or k.startswith("nsk.")]:
+            del sys.modules[m]
+        importlib.invalidate_caches()
+        ns = importlib.import_module("nunavut_support")
+        py = __import__("vf.codec.pyrun", fromlist=["PyTarget"]).PyTarget(str(out))
+        py.ns = ns
+        for i in order:
+            t = points[i]
+            evals += 1
+            want = py.cls(t)
+            try:
+                got = ns.get_class(t)
+            except Exception as e:  # pylint: disable=broad-except
+                got = e
+            if got is not want:
+                bag.add({"kind": "get_class_wrong_for_namesake", "history": "after_namesake" if i != order[0] else "first"}, {"order": [str(points[j]) for j in order], "asked": str(t), "got": repr(got)}, f"get_class({t}) returned {got!r} after resolving {[str(points[j]) for j in order[:order.index(i)]]}")
+            if ns.get_model(want) != t or str(ns.get_model(want)) != str(t):
+                bag.add({"kind": "get_model_wrong_for_namesake"}, {"asked": str(t)}, f"get_model of the class of {t} is {ns.get_model(want)}")
+        for t in [x for x in types if x.short_name in ("Path", "Pick")]:
+            top = t
+            for v in space.values_of(top, False)[:: 1 if thorough else 3]:
+                evals += 1
+                try:
+                    o = py.build(t, v)
+                    s1 = b"".join(bytes(x) for x in ns.serialize(o))
+                    o2 = ns.update_from_builtin(py.cls(t)(), ns.to_builtin(o))
+                    s2 = b"".join(bytes(x) for x in ns.serialize(o2))
+                    if s1 != s2:
+                        bag.add({"kind": "builtin_roundtrip_differs", "feature": "namesakes"}, {"type": str(t), "first": s1.hex(), "second": s2.hex(), "order": [str(points[j]) for j in order]}, f"{t}: builtin round trip changed the serialized form {s1.hex()} -> {s2.hex()} (namesake element classes)")
+                except Exception as e:  # pylint: disable=broad-except
+                    bag.add({"kind": "builtin_roundtrip_raises", "feature": "namesakes", "exc": type(e).__name__}, {"type": str(t), "order": [str(points[j]) for j in order]}, f"{t}: builtin round trip raised {type(e).__name__}: {e}")
+    return {"bag": bag, "evals": evals}
+
+
 def run(ctx: Ctx) -> int:
     defs = E.select(ctx, space.universe(ctx.thorough))
     shards = E.make_shards(defs, 16 if not ctx.thorough else 40)
     jobs = E.debug_filter([(i, sh, ctx.scratch, ctx.thorough) for i, sh in enumerate(shards)])
-    results = ctx.pool_map(_work, jobs)
+    import multiprocessing as mp
+
+    with mp.get_context("fork").Pool(min(ctx.workers, len(jobs) + 1)) as pool:
+        a1 = pool.map_async(_work, jobs, 1)
+        a2 = pool.apply_async(_work_namesakes, ((str(ctx.scratch), ctx.thorough),))
+        results, nres = a1.get(), a2.get()
+    ctx.bag.merge(nres["bag"])
+    ctx.stats["namesake_evaluations"] = nres["evals"]
     outcomes: typing.Set[str] = set()
     for r in results:
         ctx.bag.merge(r["bag"])
